@@ -124,10 +124,68 @@ pub fn log_tail(log: &Path, max: usize) -> String {
     )
 }
 
-/// A TCP port that was free a moment ago (the tools cannot report an ephemeral port themselves).
+/// A TCP port that is free right now. Ports are handed out from a per-process rotating cursor so
+/// that two scenarios of this process never get the same one; whether the port really ends up in
+/// the hands of the intended child is verified by `wait_port` (the tools cannot report an
+/// ephemeral port themselves, so there is an unavoidable window between this probe and their bind).
 pub fn free_port() -> Option<u16> {
-    let l = TcpListener::bind("127.0.0.1:0").ok()?;
-    l.local_addr().ok().map(|a| a.port())
+    use std::sync::atomic::{AtomicU32, Ordering};
+    static CURSOR: AtomicU32 = AtomicU32::new(0);
+    const LO: u32 = 20000;
+    const SPAN: u32 = 40000;
+    if CURSOR.load(Ordering::Relaxed) == 0 {
+        let seed = std::process::id().wrapping_mul(2654435761) ^ (std::time::SystemTime::now()
+            .duration_since(std::time::UNIX_EPOCH)
+            .map(|d| d.subsec_nanos())
+            .unwrap_or(0));
+        let _ = CURSOR.compare_exchange(0, 1 + seed % SPAN, Ordering::Relaxed, Ordering::Relaxed);
+    }
+    for _ in 0..2000 {
+        let c = CURSOR.fetch_add(1, Ordering::Relaxed);
+        let port = (LO + c % SPAN) as u16;
+        // the tools listen on 0.0.0.0
+        if let Ok(l) = TcpListener::bind(("0.0.0.0", port)) {
+            drop(l);
+            return Some(port);
+        }
+    }
+    None
+}
+
+/// Does process `pid` hold the listening TCP socket on `port`? (Linux /proc; None = cannot tell)
+pub fn port_owned_by(pid: u32, port: u16) -> Option<bool> {
+    let mut inodes: Vec<String> = Vec::new();
+    let mut readable = false;
+    for table in ["/proc/net/tcp", "/proc/net/tcp6"] {
+        let Ok(text) = std::fs::read_to_string(table) else { continue };
+        readable = true;
+        for line in text.lines().skip(1) {
+            let f: Vec<&str> = line.split_whitespace().collect();
+            if f.len() < 10 || f[3] != "0A" {
+                continue;
+            }
+            let Some(p) = f[1].rsplit(':').next() else { continue };
+            if u16::from_str_radix(p, 16).ok() == Some(port) {
+                inodes.push(f[9].to_string());
+            }
+        }
+    }
+    if !readable {
+        return None;
+    }
+    if inodes.is_empty() {
+        return Some(false);
+    }
+    let rd = std::fs::read_dir(format!("/proc/{}/fd", pid)).ok()?;
+    for e in rd.flatten() {
+        if let Ok(t) = std::fs::read_link(e.path()) {
+            let t = t.to_string_lossy().to_string();
+            if inodes.iter().any(|i| t == format!("socket:[{}]", i)) {
+                return Some(true);
+            }
+        }
+    }
+    Some(false)
 }
 
 #[derive(Debug, PartialEq)]
@@ -137,26 +195,42 @@ pub enum PortWait {
     Timeout,
 }
 
-/// Wait until `port` accepts connections on loopback, the child dies, or the bound elapses.
+/// Wait until *the child* listens on `port` (loopback connect succeeds and, where /proc can tell,
+/// the listening socket belongs to the child), the child dies, or the bound elapses.
 pub fn wait_port(port: u16, child: &mut Guard, timeout: Duration) -> PortWait {
     let addr: SocketAddr = ([127, 0, 0, 1], port).into();
     let start = Instant::now();
+    let pid = child.0.id();
     loop {
         if child.exited().is_some() {
             return PortWait::ChildExited;
         }
-        if let Ok(s) = TcpStream::connect_timeout(&addr, Duration::from_millis(250)) {
-            drop(s);
-            // the listener could belong to somebody else if our child died meanwhile
-            if child.exited().is_some() {
-                return PortWait::ChildExited;
+        match port_owned_by(pid, port) {
+            Some(true) => {
+                if let Ok(s) = TcpStream::connect_timeout(&addr, Duration::from_millis(250)) {
+                    drop(s);
+                    if child.exited().is_some() {
+                        return PortWait::ChildExited;
+                    }
+                    return PortWait::Ready;
+                }
             }
-            return PortWait::Ready;
+            Some(false) => {} // not (yet) ours: keep waiting; a lost race ends with the child exiting
+            None => {
+                if let Ok(s) = TcpStream::connect_timeout(&addr, Duration::from_millis(250)) {
+                    drop(s);
+                    std::thread::sleep(Duration::from_millis(20));
+                    if child.exited().is_some() {
+                        return PortWait::ChildExited;
+                    }
+                    return PortWait::Ready;
+                }
+            }
         }
         if start.elapsed() > timeout {
             return PortWait::Timeout;
         }
-        std::thread::sleep(Duration::from_millis(5));
+        std::thread::sleep(Duration::from_millis(3));
     }
 }
 
